@@ -10,13 +10,13 @@ Local Open Scope N_scope.
 
 (* one extern call, SIGPIPE ignored, reply decoder that stays inside its buffer: for EVERY peer script the call returns
    Ok / in-process fallback / Err in a well-formed state (cop_pid names exactly one unreaped child, or none with both
-   descriptors closed; every forgotten child reaped) -- the only other possibility is a VM blocked on a peer that keeps
-   its pipe open and stays silent *)
+   descriptors closed; every forgotten child reaped) -- the only other possibility is a VM blocked in a read while the peer
+   keeps its stdout open without delivering (hang_ok: the current child exists and its write end is open) *)
 Theorem C16_call_contained : forall dec j req v w,
   sigign w = true -> safe_dec dec -> req <> ReqOverrun -> inv v w ->
   match call_cop dec j req v w with
   | Go _ v' w' => inv v' w' /\ sigign w' = true
-  | Stop (FHang _) _ => True
+  | Stop (FHang _) w' => hang_ok w'
   | Stop _ _ => False
   end.
 Proof. exact call_contained. Qed.
@@ -42,7 +42,7 @@ Theorem C16_run_contained : forall dec scripts reqs,
   let o := run dec true scripts reqs in
   match o_status o with
   | SExit0 | SExit1 => has_pid (o_vm o) = false /\ all_reaped (o_world o) = true /\ orphans (o_world o) = false /\ wfb (o_vm o) (o_world o) = true
-  | SHang _ => True
+  | SHang _ => hang_ok (o_world o)
   | SKilled _ | SCrash => False
   end.
 Proof. exact run_contained. Qed.
